@@ -145,8 +145,9 @@ pub(crate) fn ntt_inv<F: NttFriendlyFieldElement>(
     inp: &[F],
     size: usize,
 ) -> Result<(), NttError> {
-    let size_inv = F::from(F::Integer::try_from(size).unwrap()).inv();
+    // Run the transform first: it validates `size`, so that the conversion below cannot fail.
     ntt(outp, inp, size)?;
+    let size_inv = F::from(F::Integer::try_from(size).map_err(|_| NttError::SizeTooLarge)?).inv();
     ntt_inv_finish(outp, size, size_inv);
     Ok(())
 }
